@@ -102,6 +102,43 @@ CLAIMED["C03"] = (T_WP + ": safety obligations (index, slice, nil, division, mak
   "Callees without contract are havocked. Termination is proved only where a decreases clause is listed.",
   "DESIGN.md section 4, C03")
 
+CLAIMED["C02"] = (T_WP + " (emission step only)",
+  "The canonical-form statement itself (winding 0/1, orientation, >= 3 vertices) is NOT decided. Proved for all inputs are the named emission mechanisms: buildPath rejects exactly the degenerate rings (nil, single node, two nodes when closed), "
+  "never emits two consecutive equal vertices, and rejects a closed 3-vertex result exactly when it is a very small triangle; ptsReallyClose / isVerySmallTriangle / isValidClosedPath have exact specifications; "
+  "buildPaths routes every output record to exactly one of the two solutions according to isOpen and skips records without points.",
+  "Ring well-formedness (non-nil next/prev links) is an explicit assumed precondition (listed in evidence). cleanCollinear / fixSelfIntersects / orientation bookkeeping not under contract.",
+  "DESIGN.md section 4, C02")
+CLAIMED["C04"] = (T_WP + " (tree node API only)",
+  "Proved for all inputs: PolyPathBase.AddChild creates a fresh node whose parent is the receiver and whose polygon is the argument, appends it exactly once and leaves the other children in place; Level() walks the parent links "
+  "(exact for depth 0, 1, 2; step relation for every iteration); IsHole() is false for the root and for outer polygons and true for their direct children (the alternation the property describes); Clear/Count; "
+  "recursiveCheckOwners never attaches a record that already has a tree node. Owner correctness, containment and equality with the flat result are NOT decided.",
+  "Heap model per struct field; tree depth counter treated as a mathematical integer.",
+  "DESIGN.md section 4, C04")
+CLAIMED["C05"] = (T_WP + " (bookkeeping and join-geometry clauses; the containment statement is not decided)",
+  "Proved for all inputs: StripDuplicates returns the path without consecutive duplicates (and without a closing duplicate for closed paths), keeps first/last points; NewGroup stores exactly the stripped paths with the requested join/end type; "
+  "ClipperOffset.AddPaths / NewClipperOffset wire their arguments; |delta| < 0.5 copies every group path to the solution one by one; the effective delta is +/-delta according to the detected orientation and the final union runs with the paired fill rule and reverse flag; "
+  "getUnitNormal is a unit vector perpendicular to the segment on the right-hand side; buildNormals computes one normal per segment incl. the closing one; getPerpendic is within 0.5 of pt + delta*normal; "
+  "doMiter / doBevel append exactly the vertices the join formulas prescribe; intersectPoint returns a point on both lines (incl. the vertical special cases).",
+  "float-as-real; sqrt by axiom; callbacks pure. Both containment clauses, Round's arc tolerance and the negative-delta mirror statement are not decided.",
+  "DESIGN.md section 4, C05")
+CLAIMED["C10"] = (T_WP + " plus a bounded stand-in that carries known finding F12",
+  "Proved: the shared pieces of C05 used by open paths (StripDuplicates for open paths keeps both end points, buildNormals, getUnitNormal, getPerpendic, doBevel end-cap formula with j == k, effective delta = |delta| for open end types, NewGroup open groups are never 'reversed'). "
+  "The end-cap construction itself is broken on the current tree (known finding F12: no cap is ever built); a bounded exhaustive stand-in shows it and is recorded, not counted as proved.",
+  "Known finding F12 is the substance of this property for 2-point strokes; containment clauses undecided.",
+  "DESIGN.md section 4, C10")
+CLAIMED["C06"] = (T_WP + " for the location / intersection primitives and the fast paths; bounded stand-in for the region clause (carries known finding F30)",
+  "Proved for all inputs: getLocation's total specification (on the boundary iff not ok, which side, strictly inside); getSegmentIntersection reports a touching intersection only if the point lies on the rectangle edge segment and reports none when both end points are strictly on one side; "
+  "paths whose vertices all lie inside the rectangle are returned unchanged and paths entirely on one outer side vanish (RectClip64.Execute, using the exact getBounds contract after the F1 repair); an empty rectangle gives an empty result; "
+  "NewRectClip64 wires rect and rectPath. Bounded (exhaustive, labelled): every output vertex within 1 unit of the rectangle; fast paths. The winding clause FAILS on about 5% of small polygons: known finding F30 (the rectangle clipper port is defective), recorded with a witness.",
+  "Known finding F30 is recorded rather than repaired (multi-part repair). The state machine executeInternal and the edge post-pass are not under contract.",
+  "DESIGN.md section 4, C06")
+CLAIMED["C11"] = (T_WP + " for the shared primitives; bounded stand-in carrying known finding F6",
+  "Proved: the primitives shared with C06 (getLocation, getSegmentIntersection, NewRectClip64 incl. the line path extractor being passed on, wrapper RectClipLinesPaths64 empty cases). "
+  "Bounded (exhaustive over 2-3 point lines on a grid): output vertices stay within 1 unit of the rectangle. The clauses 'vertices lie on the input line', 'a two-point segment is not dropped', 'lines are never closed up' FAIL: known finding F6 "
+  "(RectClipLines64 has no Execute of its own, the polygon algorithm runs on lines), recorded with witnesses.",
+  "Known finding F6 is the substance of this property.",
+  "DESIGN.md section 4, C11")
+
 NOT_APPLICABLE = {
 }
 
